@@ -4,11 +4,14 @@ import Mathlib.Algebra.Order.Field.Basic
 import Mathlib.Tactic.Linarith
 import Mathlib.Tactic.FieldSimp
 import Mathlib.Tactic.Positivity
+import Mathlib.Tactic.Ring
 /-
 Generic theory of the drift lookup over a linear ordered field (exact arithmetic): the
 specification predicates (`SliceOk`, `TablesOk`, `InSlice`, `Bracket`) and the lemmas the
 property theorems of `Props/C18.lean` are assembled from.
 -/
+set_option linter.unusedSectionVars false
+
 namespace AlphaG.Drift
 
 variable {K : Type} [Field K] [LinearOrder K] [IsStrictOrderedRing K]
